@@ -11,7 +11,7 @@ RULE = ("HIST: per variant, seeded histories of update pieces (0-5 byte, <40 byt
         "CHUNK-PROPERTY (implementation alone): every observation (processed_len, finalize under all 32 option "
         "settings) of a chunked / cloned history must equal that of one update with the bytes the observed instance "
         "has seen; includes every 2-piece cut of a 0..140-byte input and pieces around 60/64/128 bytes.  "
-        "Non-trivial = a history whose data reaches the main loop (more than 4 bytes); distinct by case text.")
+        "Non-trivial = a history whose data reaches the main loop (more than 4 bytes); distinct by case text.  HIST and half of CHUNK-PROPERTY are repeated on the low-memory-bucket and no-SIMD builds.")
 
 ALLF = " ".join("f %d" % o for o in range(32))
 
@@ -60,6 +60,19 @@ def run(ctx):
                    nontrivial=lambda c, i: len(c) > 40)
     # the property itself on the implementation
     pairs = chunk_property_pairs(ctx.rng.fork("chunk"), ctx.tier)
+    chunk_property(ctx, hb, pairs, "CHUNK-PROPERTY")
+    ctx.samples.append({"suite": "CHUNK-PROPERTY", "case": pairs[5][0][:300], "reference": pairs[5][1][:200]})
+    # the same on the builds with the other bucket layout / Pearson table / aggregation code
+    for name in ["lowmem", "nosimd"]:
+        hb2 = ctx.harness(name)
+        if hb2 is None:
+            continue
+        ctx.correspond("HIST[%s]" % name, cases, hb2, db, flags=configs.flags(name), coq_sample=0, nontrivial=lambda c, i: len(c) > 40)
+        chunk_property(ctx, hb2, pairs[::2], "CHUNK-PROPERTY[%s]" % name)
+    return finish(ctx)
+
+
+def chunk_property(ctx, hb, pairs, label):
     a_cases = [a for a, _ in pairs]
     refs = sorted(set(b for _, b in pairs if b))
     outs = dict(zip(a_cases, core.run_cases(hb, a_cases, tag="c03a")))
@@ -78,7 +91,7 @@ def run(ctx):
         if oa[-nobs:] != ob[-nobs:]:
             bad += 1
             k = next((i for i, (x, y) in enumerate(zip(oa[-nobs:], ob[-nobs:])) if x != y), 0)
-            ctx.violations.append({"suite": "CHUNK-PROPERTY", "case": a, "impl": " | ".join(oa[-nobs:])[:400],
+            ctx.violations.append({"suite": label, "config": core.config_of(hb), "case": a, "impl": " | ".join(oa[-nobs:])[:400],
                                    "what": "observation #%d differs from one update with the same bytes (%s): %s vs %s" %
                                            (k, b[:120], oa[-nobs:][k][:80], ob[-nobs:][k][:80])})
     # interleaved: compare with stripped version
@@ -89,11 +102,11 @@ def run(ctx):
         ctx.evaluations += 1
         if outs[a].split(" | ")[-nobs:] != o.split(" | ")[-nobs:]:
             bad += 1
-            ctx.violations.append({"suite": "CHUNK-PROPERTY", "case": a, "impl": outs[a][:300],
+            ctx.violations.append({"suite": label, "config": core.config_of(hb), "case": a, "impl": outs[a][:300],
                                    "what": "interleaved finalize/processed_len calls changed later observations"})
-    ctx.suites["CHUNK-PROPERTY"] = {"pairs": len(pairs), "failures": bad}
-    ctx.samples.append({"suite": "CHUNK-PROPERTY", "case": pairs[5][0][:300], "reference": pairs[5][1][:200]})
-    return finish(ctx)
+    ctx.suites[label] = {"pairs": len(pairs), "failures": bad}
+
+
 
 
 def strip_interleaved(case):
